@@ -43,6 +43,15 @@ MISSED_FIRST = {  # the property's own check missed it before it was strengthene
     "C15-d": "C15: float32 fields with automatic intensity levels",
     "C15-e": "C15: repeated time stamps in the parallel stream",
     "C17-e": "C17: grid sizes with large prime factors (13, 17, 29, 37, 58) - every generated grid had an FFT-friendly size before",
+    "C05-e": "C05: an overall unit of length (cells of size 0.02 .. 37) - every generated length was of order 1; this also exposed D22 (fixed in /repo 8d4e282)",
+    "C05-f": "C05: one settings dict shared by all calls of a run (an implementation that writes into the caller's refine_args leaks state into later calls)",
+    "C07-f": "C06/C07: tracked diffuse droplets WITH interface widths (narrow and wide): tracking looks at radii only",
+    "C08-f": "C08: tracks with decreasing / restarted / repeated / shuffled time stamps",
+    "C12-f": "C12: bounding boxes of diffuse droplets (width unset / relative / absolute), not only of SphericalDroplet",
+    "C15-f": "C15: refinement in the stored-frames stream with interface widths that differ from the grid spacing (serial runs must not carry state from frame to frame)",
+    "C15-g": "C15: nothing to refine (image without droplets, every droplet below minimal_radius, empty candidate list) for num_processes 1 / 2 / 'auto'",
+    "C20-f": "C20: remove overlaps on overlap chains A-B-C against the list model (C10's verified loop)",
+    "C20-g": "C20: consistency requested while droplets arrive through another collection (extend / constructor with a mixed Emulsion)",
 }
 rows = []
 for d in sorted(ROOT.iterdir()):
